@@ -12,6 +12,7 @@
 import Gobptree.Proofs.RunOk
 import Gobptree.Proofs.Scan
 import Gobptree.Proofs.SpecSorted
+import Gobptree.Proofs.CSFinal
 
 namespace Gobptree
 
@@ -82,9 +83,53 @@ theorem C08_contents_sorted (hp : ParamsOk lt P) (h4 : 4 ≤ P.order) (ops : Lis
 
 end Gobptree
 
+namespace Gobptree.Conc
+open Gobptree
+
+variable {K V : Type}
+
+/-- no operation is in flight and no cursor is open -/
+def Quiescent (c : Config K V) : Prop :=
+  ∀ th ∈ c.threads, (th.park = .start ∨ th.park = .finished) ∧ cursorLocks th.cursor = []
+
+/-- **C08 (structure, under every schedule).** In EVERY reachable configuration of every
+    family of disciplined client programs — not only at quiescence — the tree satisfies the
+    structural half of the shape invariant: node identities pairwise distinct; in every node
+    the parallel arrays have equal length and at most `order` entries; every non-root node
+    has at least `order/2` entries, except the single node (`holeOf`) that a Delete currently
+    running is about to rebalance (it holds `order/2 − 1`, and the Delete holds its mutex);
+    an inner root has at least two children; all leaves at one depth (by typing); each leaf's
+    `next` names the following leaf in order and the last one's is nil. -/
+theorem C08_structure_concurrent (P : Params K) (tree : Tree K V) (progs : List (List (COp K V)))
+    (ht : TreeOk none tree) (ho : tree.order = P.order) (hp : PadOk P) (hd : Disciplined progs)
+    (c : Config K V) (hr : Reachable (Config.init P tree progs) c) :
+    TreeOk (holeOf c.threads) c.tree :=
+  (reachable_cinv P tree progs ht ho hp hd c hr).s.tree
+
+/-- **C08 (quiescence).** When no operation is in flight there is no hole: the structural
+    shape invariant holds with the full minimum occupancy for every non-root node. (The
+    ordering clauses of C08 — keys ascending, separators bounding their subtrees — are proved
+    for sequential histories in `C08_shape_seq`; under concurrency they are part of the
+    key-order invariant, see C03.) -/
+theorem C08_structure_quiescent (P : Params K) (tree : Tree K V) (progs : List (List (COp K V)))
+    (ht : TreeOk none tree) (ho : tree.order = P.order) (hp : PadOk P) (hd : Disciplined progs)
+    (c : Config K V) (hr : Reachable (Config.init P tree progs) c) (hq : Quiescent c) :
+    TreeOk none c.tree := by
+  have h := C08_structure_concurrent P tree progs ht ho hp hd c hr
+  have : holeOf c.threads = none := by
+    apply holeOf_all_none
+    intro b hb
+    rcases (hq b hb).1 with e | e <;> rw [e] <;> rfl
+  rw [this] at h
+  exact h
+
+end Gobptree.Conc
+
 #print axioms Gobptree.C08_leaves_and_chain
 #print axioms Gobptree.C08_contents_sorted
 #print axioms Gobptree.C08_shape_seq
 #print axioms Gobptree.C08_order2_partial
 #print axioms Gobptree.C08_step_preserves
 #print axioms Gobptree.C08_root_leaf
+#print axioms Gobptree.Conc.C08_structure_concurrent
+#print axioms Gobptree.Conc.C08_structure_quiescent
